@@ -385,3 +385,36 @@ func scrubStructRefs(v reflect.Value, seen map[uintptr]bool, depth int) {
 		scrub(v.Field(i), seen, depth)
 	}
 }
+
+// Each calls fn for every struct value reachable from v (pre-order), with a
+// path made of field names, [] for slice elements and {} for map values.
+// Interface values (e.g. hints holding types) are entered.
+func Each(v any, fn func(path string, s reflect.Value)) {
+	each(reflect.ValueOf(v), "", fn, 0)
+}
+
+func each(v reflect.Value, path string, fn func(path string, s reflect.Value), depth int) {
+	if !v.IsValid() || depth > 300 {
+		return
+	}
+	switch v.Kind() {
+	case reflect.Interface, reflect.Ptr:
+		if !v.IsNil() {
+			each(v.Elem(), path, fn, depth+1)
+		}
+	case reflect.Slice, reflect.Array:
+		for i := 0; i < v.Len(); i++ {
+			each(v.Index(i), path+"[]", fn, depth+1)
+		}
+	case reflect.Map:
+		iter := v.MapRange()
+		for iter.Next() {
+			each(iter.Value(), path+"{"+fmt.Sprint(iter.Key())+"}", fn, depth+1)
+		}
+	case reflect.Struct:
+		fn(path, v)
+		for i := 0; i < v.NumField(); i++ {
+			each(v.Field(i), path+"."+v.Type().Field(i).Name, fn, depth+1)
+		}
+	}
+}
